@@ -18,11 +18,14 @@ HARNESSES = [
     {"name": "ce", "src": "harness.cpp", "flags": ["-O0", "-DC02_CE=1", "-DTETL_ENABLE_CONTRACT_CHECKS=1"]},
 ]
 N_BATTERIES = 16
-N_CE = 13
+N_CE = 14
 KINDS = ("sv_int", "sv_nt", "iv_int", "iv_nt", "str7", "str15", "str16", "str255", "str256", "wstr7", "wstr16",
          "string_view", "wstring_view", "span", "span_static0", "mdspan", "static_set", "flat_set", "flat_multiset", "stack",
          "optional", "optional_nt", "variant", "expected", "bitset", "bitset8", "bitset64", "inplace_function", "pair", "tuple",
-         "extents", "duration")
+         "extents", "duration",
+         # the size-type boundaries of smallest_size_t<Capacity> (uint8 below 255, uint16 below 65535, then uint32)
+         "iv_cap_1", "iv_cap_254", "iv_cap_255", "iv_cap_256", "iv_cap_65534", "iv_cap_65535",
+         "sv_cap_0", "sv_cap_254", "sv_cap_255", "sv_cap_256", "sv_cap_65535")
 RULE = ("own legs: %d operation batteries (vectors, inplace_vector, strings in both layouts and three character types, views on "
         "non-terminated arrays, mutating / non-mutating / numeric algorithms with exact-fit outputs, charconv with exact-fit and "
         "empty buffers, sets, optional/variant/expected, bitset and <bit>, span/mdspan/mdarray, pair/tuple/callable wrappers, "
@@ -116,9 +119,9 @@ def _sanitizer_flags(h):
     return [f for f in h.get("flags", []) if f.startswith("-fsanitize=")]
 
 
-def _pick_variant(prop):
-    """the sanitizer variant a package declares: prefers address+undefined, then address, then any -fsanitize= variant that
-    is not the package's first (main) harness"""
+def _variants(prop):
+    """the sanitizer variants a package declares, best first: address+undefined, then address, then undefined, then any other
+    -fsanitize= variant; a package's first (main) harness counts only when it is named like a sanitizer variant"""
     hs = list(getattr(prop, "HARNESSES", []))
     cands = [h for h in hs[1:] if _sanitizer_flags(h)] + [h for h in hs[:1] if h.get("name") in ("asan", "san", "ubsan")]
     def rank(h):
@@ -126,10 +129,11 @@ def _pick_variant(prop):
         return (0 if ("address" in fl and "undefined" in fl) else 1 if "address" in fl else 2 if "undefined" in fl else 3,
                 1 if h.get("thorough_only") else 0)
     cands.sort(key=rank)
-    return cands[0] if cands else None
+    return cands
 
 
 def _one_package(pid, tier, seed):
+    """quick: the best sanitizer variant of the package on a sample; thorough: EVERY declared sanitizer variant on all cases"""
     from vlib import engine
     t0 = time.time()
     res = {"package": pid, "variant": None, "sanitizers": None, "cases": 0, "crash": 0, "disagree": 0, "skipped": None,
@@ -139,29 +143,27 @@ def _one_package(pid, tier, seed):
     except Exception as e:  # noqa
         res["skipped"] = f"no package ({e})"
         return res
-    h = _pick_variant(prop)
-    if h is None:
+    hs = _variants(prop)
+    if not hs:
         # the package declares no sanitizer variant: C02 builds the package's first (main) harness with ASan+UBSan itself
         # (nothing of the package is edited; the binary is build/<pkg>/h-c02san-*)
-        hs = list(getattr(prop, "HARNESSES", []))
-        if not hs:
+        all_hs = list(getattr(prop, "HARNESSES", []))
+        if not all_hs:
             res["skipped"] = "package declares no harness"
             return res
-        h = dict(hs[0])
+        h = dict(all_hs[0])
         h["name"] = "c02san"
         h["flags"] = list(h.get("flags", [])) + SAN + ["-g0"]
         h.pop("thorough_only", None)
         res["derived_by_C02"] = True
-    res["variant"] = h["name"]
-    res["sanitizers"] = " ".join(_sanitizer_flags(h))
-    if tier == "quick" and pid in QUICK_SKIP:
-        res["skipped"] = f"variant {h['name']} of {pid} is built and run by ./check C02 --tier thorough only"
-        return res
-    exe, log = engine.build_harness(pid, h["name"], h["src"], h["flags"], h.get("compiler", "g++"))
-    if exe is None:
-        res["skipped"] = "sanitizer harness does not compile: " + log[-400:]
-        res["build_failed"] = True
-        return res
+        hs = [h]
+    if tier == "quick":
+        hs = hs[:1]
+        if pid in QUICK_SKIP:
+            res["skipped"] = f"variant {hs[0]['name']} of {pid} is built and run by ./check C02 --tier thorough only"
+            return res
+    res["variant"] = "+".join(h["name"] for h in hs)
+    res["sanitizers"] = " | ".join(" ".join(_sanitizer_flags(h)) for h in hs)
     try:
         driver = engine.build_driver(pid)
     except Exception as e:  # noqa
@@ -180,24 +182,34 @@ def _one_package(pid, tier, seed):
     if len(cases) > cap:
         r2 = random.Random(seed + 5)
         cases = r2.sample(cases, cap)
-    _, il, _ = engine.run_bin(exe, cases, args=h.get("args", ()), extra_env=h.get("env"), timeout=3000)
-    _, ml, _ = engine.run_bin(driver, cases, extra_env=h.get("env"), timeout=3000)
     known_ops = {o for k in engine.load_known(pid) for o in k.get("ops", [])}
-    if len(il) != len(cases) or len(ml) != len(cases):
-        res["disagree"] += 1
-        res["examples"].append({"case": "(run incomplete)", "impl_asan": f"{len(il)} lines", "model": f"{len(ml)} lines", "known_op": False})
-    for c, a, b in zip(cases, il, ml):
-        e = engine.split_legs(a)[0]
-        m = engine.split_legs(b)[0]
-        if e == "skip":
-            continue   # the package's sanitizer variant deliberately skips this case
-        res["cases"] += 1
-        if e.startswith("crash"):
-            res["crash"] += 1
-        if e != m:
+    model_by_env = {}
+    for h in hs:
+        exe, log = engine.build_harness(pid, h["name"], h["src"], h["flags"], h.get("compiler", "g++"))
+        if exe is None:
+            res["skipped"] = f"sanitizer harness {h['name']} does not compile: " + log[-400:]
+            res["build_failed"] = True
+            return res
+        envkey = repr(sorted((h.get("env") or {}).items()))
+        if envkey not in model_by_env:
+            _, model_by_env[envkey], _ = engine.run_bin(driver, cases, extra_env=h.get("env"), timeout=3000)
+        ml = model_by_env[envkey]
+        _, il, _ = engine.run_bin(exe, cases, args=h.get("args", ()), extra_env=h.get("env"), timeout=3000)
+        if len(il) != len(cases) or len(ml) != len(cases):
             res["disagree"] += 1
-            if len(res["examples"]) < 3:
-                res["examples"].append({"case": c, "impl_asan": e, "model": m, "known_op": c.split(" ", 1)[0] in known_ops})
+            res["examples"].append({"case": "(run incomplete)", "variant": h["name"], "impl_asan": f"{len(il)} lines", "model": f"{len(ml)} lines", "known_op": False})
+        for c, a, b in zip(cases, il, ml):
+            e = engine.split_legs(a)[0]
+            m = engine.split_legs(b)[0]
+            if e == "skip":
+                continue   # the package's sanitizer variant deliberately skips this case
+            res["cases"] += 1
+            if e.startswith("crash"):
+                res["crash"] += 1
+            if e != m:
+                res["disagree"] += 1
+                if len(res["examples"]) < 3:
+                    res["examples"].append({"case": c, "variant": h["name"], "impl_asan": e, "model": m, "known_op": c.split(" ", 1)[0] in known_ops})
     res["wall_s"] = round(time.time() - t0, 1)
     return res
 
@@ -222,7 +234,7 @@ def extra_checks(ctx):
             ex0 = r["examples"][0]
             items.append({"kind": "violation", "found_input": True,
                           "payload": {"kind": "sanitizer build disagrees with the model (UB / out-of-range access / overflow observed, or behaviour changed)",
-                                      "package": r["package"], "variant": r["variant"], "case": ex0["case"], "impl": ex0["impl_asan"], "model": ex0["model"],
+                                      "package": r["package"], "variant": ex0.get("variant", r["variant"]), "case": ex0["case"], "impl": ex0["impl_asan"], "model": ex0["model"],
                                       "more": r["examples"][1:],
                                       "disagreeing_cases": r["disagree"], "crashes": r["crash"], "replay_hint": f"./check {r['package']} --tier thorough"}})
         elif r["skipped"]:
